@@ -626,6 +626,9 @@ func Find(p string, src []byte, offset, limit int) (matches []*MatchData, err er
 	pat := parsePattern(newScanner([]byte(p)), true)
 	insts := compilePattern(pat)
 	matches = []*MatchData{}
+	if limit == 0 {
+		return
+	}
 	for sp := offset; sp <= len(src); {
 		ok, nsp, ms := recursiveVM(src, insts, 0, sp, 0)
 		sp++
